@@ -38,7 +38,7 @@ type Kind struct {
 }
 
 var kinds = []string{"http/uri", "http/uri+noconfheaders", "http/uri+preload", "http/uripost", "http/raw", "http/jsonline", "http/jsonline+preload+shared-client", "connect/uri",
-	"http/scenario", "http/scenario+rand", "http/scenario+failing-steps+phout", "grpc/json", "grpc/json+shared-client", "grpc/scenario", "grpc/scenario+failing-steps+phout", "mock/ownership", "http/uri+phout+composite"}
+	"http/scenario", "http/scenario+rand", "http/scenario+failing-steps+phout", "grpc/json", "grpc/json+shared-client", "grpc/scenario", "grpc/scenario+failing-steps+phout", "mock/ownership", "http/uri+phout+composite", "schedule/first-use"}
 
 func skipType(t reflect.Type) bool {
 	switch t.Name() {
@@ -530,6 +530,90 @@ func mockKind(res *vkit.Result, k Kind) {
 	res.Eval(vkit.JSON(k), plan.ShotCount() > int64(k.Instances))
 }
 
+// firstUseKind: a pool's RPS schedule is shared by its instances and is never started
+// explicitly — the first Next of whichever instance comes first starts it, and with instances
+// released together those first calls overlap. Over many fresh schedules of every kind, 8
+// goroutines make their first calls at once: nobody may panic, no token may be dated before
+// the schedule existed, and the race detector watches the start-up state.
+func firstUseKind(res *vkit.Result, k Kind) {
+	specs := []vkit.SchedSpec{
+		{Kind: "const", A: 1000, DurMs: 50}, {Kind: "line", A: 100, B: 2000, DurMs: 50}, {Kind: "once", N: 40},
+		{Kind: "step", A: 100, B: 400, N: 100, DurMs: 10}, {Kind: "unlimited", DurMs: 20}, {Kind: "instance_step", A: 1, B: 5, N: 1, DurMs: 5},
+		{Kind: "composite", Parts: []vkit.SchedSpec{{Kind: "once", N: 3}, {Kind: "const", A: 2000, DurMs: 20}, {Kind: "unlimited", DurMs: 5}}},
+	}
+	rounds := vkit.N(1500, 6000)
+	const callers = 8
+	type bad struct {
+		spec vkit.SchedSpec
+		msg  string
+	}
+	var mu sync.Mutex
+	var bads []bad
+	tokens := int64(0)
+	for r := 0; r < rounds; r++ {
+		spec := specs[r%len(specs)]
+		t0 := time.Now()
+		sch := spec.Build()
+		start := make(chan struct{})
+		var wg sync.WaitGroup
+		for g := 0; g < callers; g++ {
+			wg.Add(1)
+			go func() {
+				defer wg.Done()
+				defer func() {
+					if p := recover(); p != nil {
+						mu.Lock()
+						bads = append(bads, bad{spec, fmt.Sprintf("panic in the first calls: %v", p)})
+						mu.Unlock()
+					}
+				}()
+				<-start
+				for i := 0; i < 3; i++ {
+					_ = sch.Left()
+					tx, ok := sch.Next()
+					if tx.Before(t0) {
+						mu.Lock()
+						bads = append(bads, bad{spec, fmt.Sprintf("Next returned %v (ok=%v), before the schedule was created at %v", tx, ok, t0)})
+						mu.Unlock()
+					}
+					if ok {
+						atomic.AddInt64(&tokens, 1)
+					}
+				}
+			}()
+		}
+		close(start)
+		done := make(chan struct{})
+		go func() { wg.Wait(); close(done) }()
+		select {
+		case <-done:
+		case <-time.After(30 * time.Second):
+			// callers of a schedule wait for nothing but each other: after a panic of one of them
+			// (recorded above) a lock may stay held; without one the watchdog decides nothing
+			mu.Lock()
+			n := len(bads)
+			mu.Unlock()
+			if n == 0 {
+				res.Inconclusive(false, "first-use callers of a %s schedule still blocked after 30 s", spec.Kind)
+			}
+			r = rounds
+		}
+	}
+	mu.Lock()
+	defer mu.Unlock()
+	seen := map[string]bool{}
+	for _, b := range bads {
+		key := "C11/schedule/first-use/" + b.spec.Kind
+		if !seen[key] {
+			seen[key] = true
+			res.Violate(key, b.msg, map[string]any{"kind": k, "schedule": b.spec, "callers": callers})
+		}
+	}
+	res.Count("first_use_rounds", int64(rounds))
+	res.Count("first_use_tokens", tokens)
+	res.Eval(vkit.JSON(k), tokens > int64(rounds))
+}
+
 func child() {
 	vkit.Fs()
 	res := vkit.NewResult("")
@@ -544,6 +628,8 @@ func child() {
 				}
 			}()
 			switch {
+			case k.Name == "schedule/first-use":
+				firstUseKind(res, k)
 			case k.Name == "mock/ownership":
 				mockKind(res, k)
 			case strings.HasPrefix(k.Name, "http/scenario"):
